@@ -125,6 +125,13 @@ CHECKS = [
          note='Trusted: the rebuild operator and the C01 symmetry oracle / MCB oracle used to skip values that legitimately depend '
               'on the perceived ring set or fall in documented canonicalisation gaps (counted).',
          technique='model-based (stateful) property-based testing with an independent rebuild as reference model'),
+    dict(id='C17',
+         text='Generated molecules x drawn parameters (radii 1-6, length 2^4..2^12, active bits 1-4, bit pairs 0-5): linear hash sets '
+              'against an independent simple-path enumerator with the multiplicity cap, Morgan sets against an independent iterated '
+              'neighbourhood hasher, bit sets/arrays against the documented folding, dictionary keys against the hash sets, and '
+              'invariance of all of them under a drawn rebuild with new numbering and insertion order.',
+         note='Trusted: reference enumerators in the check; hash composition and atom identifier taken as the format definition.',
+         technique='differential (reference enumerator) and metamorphic (renumbering) property-based testing'),
     dict(id='C18',
          text='Exhaustive enumeration of the finite domain (118 elements x all tabulated isotopes + unspecified x charge '
               '-4..+4 x radical): lookups against a literal standard table, table-key consistency, mass computability, '
